@@ -777,6 +777,25 @@ func errOrigin(w *World, v ssa.Value) string {
 				v = o
 				continue
 			}
+			// a helper with several callers: the causes its callers hand in
+			if all := originsAll(x); len(all) > 1 {
+				set := map[string]bool{}
+				for _, o := range all {
+					if o == ssa.Value(x) {
+						return "param:" + x.Name()
+					}
+					set[errOrigin(w, o)] = true
+				}
+				var os []string
+				for k := range set {
+					os = append(os, k)
+				}
+				sort.Strings(os)
+				if len(os) == 1 {
+					return os[0]
+				}
+				return "phi(" + strings.Join(os, "|") + ")"
+			}
 			return "param:" + x.Name()
 		}
 		break
